@@ -3,7 +3,7 @@
 Everything is defined over plain JSON descriptors.
 
 Values          names are str, attributes are str or int.
-Predicate  B := ["p", family, arg] | ["not", B] | ["and", B, B] | ["or", B, B]
+Predicate  B := ["p", family, arg] | ["not", B] | ["and", B, B+] | ["or", B, B+]      (and/or are n-ary)
 Name query NQ := ["lit", s] | ["none"] | ["bool", B] | ["fn", kind]         (kind: a raw python callable)
 Attr query AQ := ["lit", v] | ["bool", B] | ["fn", kind]
 Entry query EQ := ["any", AQ] | ["all", AQ] | ["not", EQ] | ["and", EQ, EQ] | ["or", EQ, EQ]
@@ -22,11 +22,13 @@ Readings fixed here (the weaker one wherever the property text is loose):
   satisfies any of the attribute queries).
 * A case-insensitive predicate lowers its argument and lowers *string* values; a non-string value is
   compared as it is (this is what the interpreted evaluator documents by its isinstance test).
-* Result order: level-by-level.  Level 1 candidates are the start nodes (deep: all their descendants-or-
-  self in pre-order); level i+1 candidates are the children of the level i matches, parent by parent.
-  For one-level queries and for non-deep queries this is plain document (pre-)order; for deep multi-level
-  queries it is the document order of the match *paths* (lexicographic), which is the weaker reading of
-  "in document order" (a strict global pre-order is NOT demanded there).
+* Result order: document order, i.e. ascending pre-order position, for every option combination - the statement
+  says "returns, in document order, exactly the nodes ... (or at any depth for a deep search)".  The match SET is
+  defined level by level: level 1 candidates are the start nodes (deep: all their descendants-or-self); level
+  i+1 candidates are the children of the level i matches.  select_levelwise also returns the order in which a
+  level-by-level walk meets the results ("match-path order"); for one-level and for non-deep queries the two
+  orders coincide, for deep multi-level queries with nested level-1 matches they do not - the driver uses the
+  match-path order only to attribute a violation narrowly to that known family.
 * roots: every result is replaced by its ultimate ancestor (the node reached by following parent links
   to the end; for a parsed document that is the document container itself), duplicates dropped, first
   hit first.
@@ -49,8 +51,8 @@ def _str(v):
 
 
 def _same_kind(v, a):
-    if isinstance(v, str) != isinstance(a, str):
-        raise Raised()              # '<' between str and int raises TypeError
+    if v is None or a is None or isinstance(v, str) != isinstance(a, str):
+        raise Raised()              # '<' between str and int, or with None, raises TypeError
 
 
 def _eq(v, a):
@@ -124,9 +126,15 @@ def _ev(b, v, defect):
     if k == "not":
         return not _ev(b[1], v, defect)
     if k == "and":
-        return _ev(b[1], v, defect) and _ev(b[2], v, defect)
+        for x in b[1:]:
+            if not _ev(x, v, defect):
+                return False
+        return True
     if k == "or":
-        return _ev(b[1], v, defect) or _ev(b[2], v, defect)
+        for x in b[1:]:
+            if _ev(x, v, defect):
+                return True
+        return False
     raise ValueError(b)
 
 
@@ -157,8 +165,8 @@ def eval_leafwise(b, v):
             return False
     if k == "not":
         return not eval_leafwise(b[1], v)
-    l, r = eval_leafwise(b[1], v), eval_leafwise(b[2], v)
-    return (l and r) if k == "and" else (l or r)
+    vals = [eval_leafwise(x, v) for x in b[1:]]
+    return (False not in vals) if k == "and" else (True in vals)
 
 
 def leaves(b, under_not=False):
@@ -167,7 +175,10 @@ def leaves(b, under_not=False):
         return [(b[1], b[2], under_not)]
     if b[0] == "not":
         return leaves(b[1], True)
-    return leaves(b[1], under_not) + leaves(b[2], under_not)
+    out = []
+    for x in b[1:]:
+        out += leaves(x, under_not)
+    return out
 
 
 def any_leaf_raises(b, v):
@@ -199,13 +210,25 @@ def caseless_on_nonstring(b, v):
 
 # ---- query elements --------------------------------------------------------------------------------
 
-FN = {"raise": None, "eq_a": lambda v: v == "a", "self": lambda v: v}
+# raw python callables handed to the implementation ...
+FN = {"raise": None, "eq_a": lambda v: v == "a", "self": lambda v: v,
+      "str_x": lambda v: v.startswith("x"),          # raises on every non-string value
+      "lt2": lambda v: v < 2}                         # raises on strings and on None
 
 
+# ... and what they mean, written out (a callable that raises on a value does not match that value)
 def fn_eval(kind, v):
     if kind == "raise":
-        return False                      # a raw callable that raises counts as not matching
-    return bool(FN[kind](v))
+        return False
+    if kind == "eq_a":
+        return v == "a"
+    if kind == "self":
+        return bool(v)
+    if kind == "str_x":
+        return isinstance(v, str) and v[:1] == "x"
+    if kind == "lt2":
+        return isinstance(v, int) and v < 2
+    raise ValueError(kind)
 
 
 def name_match(nq, name, defect=False):
@@ -332,8 +355,9 @@ class Tree(object):
         return DOC if has_container else self.top[i]
 
 
-def select_levelwise(tree, start, sat, nlevels, deep, roots, has_container):
-    """sat(level_index, node) -> bool.  Returns (result list, trace) where trace[i] = (candidates, matches)."""
+def select_levelwise(tree, start, sat, nlevels, deep):
+    """sat(level_index, node) -> bool.  Returns (results in match-path order, trace) where
+    trace[i] = (candidates, matches) of level i."""
     nodes = tree.flatten(start) if deep else list(start)
     trace = []
     res = []
@@ -344,9 +368,16 @@ def select_levelwise(tree, start, sat, nlevels, deep, roots, has_container):
             break
         if lv + 1 < nlevels:
             nodes = [k for n in res for k in tree.kids[n]]
-    if roots:
-        res = to_roots(tree, res, has_container)
     return res, trace
+
+
+def doc_order(res):
+    """Nodes are numbered in pre-order, so document order is ascending number."""
+    return sorted(res)
+
+
+def finish(tree, res, roots, has_container):
+    return to_roots(tree, res, has_container) if roots else list(res)
 
 
 def to_roots(tree, res, has_container):
@@ -361,10 +392,11 @@ def dedup(xs):
     return out
 
 
-def select_pathwise(tree, start, sat, nlevels, deep, roots, has_container):
+def select_pathwise(tree, start, sat, nlevels, deep):
     """Second, independent formulation: r is a result iff the chain of its nlevels-1 nearest ancestors
     plus r itself satisfies the levels one by one and the chain begins inside the start set (deep: at
-    any descendant-or-self of the start set); results ordered by the chain of pre-order numbers."""
+    any descendant-or-self of the start set).  Returns (results in document order, results in match-path
+    order = lexicographic order of the chains)."""
     first_ok = set(tree.flatten(start) if deep else start)
     hits = []
     for r in range(tree.n):
@@ -375,11 +407,9 @@ def select_pathwise(tree, start, sat, nlevels, deep, roots, has_container):
             continue
         if all(sat(i, n) for i, n in enumerate(chain)):
             hits.append((tuple(chain), r))
+    in_doc_order = [r for _, r in hits]
     hits.sort()
-    res = [r for _, r in hits]
-    if roots:
-        res = to_roots(tree, res, has_container)
-    return res
+    return in_doc_order, [r for _, r in hits]
 
 
 def where_match(wq, tree, node, defect=False):
